@@ -533,6 +533,17 @@ def kernel_cross_check(ctx, report, status):
     except Exception:  # Unsupported: already reported by build_and_audit (translate())
         return
     report.translator_checks += 1
+    # the translator's self-test: every function outside the subset is refused, CPython and the evaluator agree on
+    # the functions inside it (the third reading, Lean's, is checked at build time: Generated/KernelsSelfTest.lean)
+    from translator import pyexpr_selftest
+
+    try:
+        for what in pyexpr_selftest.refused_problems():
+            status.problem("translator", f"pyexpr self-test: a construct outside the subset is not refused — {what}")
+        for what in pyexpr_selftest.python_problems():
+            status.problem("translator", f"pyexpr self-test: the evaluator differs from CPython — {what}")
+    except Exception as exc:  # pylint: disable=broad-except
+        status.problem("translator", f"pyexpr self-test crashed: {type(exc).__name__}: {exc}")
     real = {"vfit": ("vfitMethod", vfit_mod.Vfit.refinement_method),
             "quadratic": ("quadraticMethod", quadratic_mod.Quadratic.refinement_method)}
     triples = kernel_triples(ctx.rng, ctx.n(150, 1500))
